@@ -76,6 +76,17 @@ def run(ctx):
                 fh.write(json.dumps(case) + "\n")
             ctx.log("MC %s: %d distinct states, %d schedules, %d kept for replay" % (c, res.distinct, res.nbeh, n))
 
+    # ---- MC with a VIEW (thorough): larger program sets, design only (nothing to replay) ------------
+    if ctx.tier == "thorough":
+        for vc in (dict(G=3, MaxLen=2, Nested=(), Max=1), dict(G=2, MaxLen=3, Nested=("maintain", "close"), Max=0)):
+            cfg = "\n".join([
+                "SPECIFICATION VSpec", "CONSTANTS", " G = {%s}" % ", ".join(map(str, range(1, vc["G"] + 1))),
+                " MaxInFlight = %d" % vc["Max"], " Fine = FALSE", " NoOp = NoOp", " Offs = {0, 1}", " Types = {1300, 1327}",
+                " MaxLen = %d" % vc["MaxLen"], " NestedKinds = {%s}" % ", ".join('"%s"' % n for n in vc["Nested"]),
+                "VIEW View", "INVARIANTS NeverBad EndOk OrderMatchesBuf Sorted"]) + "\n"
+            res = ctx.tlc("reassembler", "MC_ConcView", cfg, workers=core.NCPU, timeout=3000, heap="24g")
+            ctx.log("MC (view) %s: %d generated / %d distinct states" % (vc, res.generated, res.distinct))
+
     # ---- A: controlled scheduler, race build -----------------------------------------
     racelog = ctx.path("conc", "race")
     env = {"GORACE": "log_path=%s halt_on_error=0 exitcode=0" % racelog}
